@@ -241,7 +241,9 @@ def rule_quantity_typestate(chk, prog):
     qparams = [norm_ident(p.arg) for p in a.posonlyargs + a.args + a.kwonlyargs if is_quantity_annotation(p.annotation)]
     chk.require(bool(qparams), f'{q}: no Quantity-annotated parameters found')
     v, ctx, env = ev.run(f)
-    values = [v] + [x for n_, x in env.items() if isinstance(x, Term) and x != S(n_)]
+    # only what leaves the function counts (its result, the closures it returns, the fields it sets on self): intermediates
+    # such as `q = units.Quantity(p0)` are judged where they are finally used
+    values = [v] + ([env['self']] if 'self' in env and isinstance(env['self'], Term) and env['self'].k == 'obj' else [])
     # closures returned / stored
     seen_l = set()
     frontier = list(values)
@@ -252,7 +254,6 @@ def rule_quantity_typestate(chk, prog):
           try:
             b, bctx, benv = util.inner(ev, z, q)
             values.append(b)
-            values.extend(x for n_, x in benv.items() if isinstance(x, Term) and x.k != 'sym')
           except Exception:
             pass
     for p in qparams:
@@ -327,9 +328,11 @@ def rule_quantity_typestate(chk, prog):
 # --------------------------------------------------------------- magnitude
 def rule_magnitude(chk, prog):
   rule = 'C12.3-raw-magnitude'
+  from sa import astnorm
   n = 0
   for f in all_functions(prog):
-    for node in ast.walk(f.node):
+    # single-use temporaries are substituted back first: `d = dimensionalize(v, unit); d.magnitude` is the tabled idiom too
+    for node in ast.walk(astnorm.normalised(f.node)):
       if not (isinstance(node, ast.Attribute) and node.attr in ('magnitude', 'm') and isinstance(node.ctx, ast.Load)):
         continue
       base = node.value
